@@ -7,6 +7,7 @@ package tree
 import (
 	"encoding/json"
 	"fmt"
+	pathutils "github.com/onosproject/onos-config/pkg/utils/path"
 	"reflect"
 	"sort"
 	"strings"
@@ -266,24 +267,36 @@ func PrunePathValues(paths []configapi.PathValue, leaveTopDeletedPaths bool) []c
 	})
 
 	prunedPaths := make([]configapi.PathValue, 0, len(sortedPaths))
-	deletingPrefix := ""
+	// Deleted paths whose text is a prefix of the path being visited, outermost first. In lexicographic
+	// order every ancestor of a path comes before it and is still on this stack when the path is reached.
+	deletingPrefixes := make([]string, 0)
 	for _, pv := range sortedPaths {
-		// If this path is marked as deleted and we're already not deleting this subtree, start deleting
-		if pv.Deleted && (len(deletingPrefix) == 0 || !strings.HasPrefix(pv.Path, deletingPrefix)) {
-			deletingPrefix = pv.Path
+		// Leave the sub-trees (and the runs of similarly named siblings) that do not contain this path
+		for len(deletingPrefixes) > 0 && !strings.HasPrefix(pv.Path, deletingPrefixes[len(deletingPrefixes)-1]) {
+			deletingPrefixes = deletingPrefixes[:len(deletingPrefixes)-1]
+		}
 
-			// If we're asked to leave behind the top deleted node of a sub-tree, add it here
+		// If the path lies below one of the deleted paths - at a path element boundary - it is pruned
+		pruned := false
+		for _, deletingPrefix := range deletingPrefixes {
+			if pathutils.IsDescendantPath(pv.Path, deletingPrefix) {
+				pruned = true
+				break
+			}
+		}
+		if pruned {
+			continue
+		}
+
+		if pv.Deleted {
+			// Start deleting this sub-tree; if we're asked to leave behind its top deleted node, add it here
+			deletingPrefixes = append(deletingPrefixes, pv.Path)
 			if leaveTopDeletedPaths {
 				prunedPaths = append(prunedPaths, pv)
 			}
+			continue
 		}
-
-		// If we're not currently deleting or if the node is not part of the sub-tree, add it and cancel deletion
-		// since we have left the sub-tree.
-		if len(deletingPrefix) == 0 || !strings.HasPrefix(pv.Path, deletingPrefix) {
-			prunedPaths = append(prunedPaths, pv)
-			deletingPrefix = ""
-		}
+		prunedPaths = append(prunedPaths, pv)
 	}
 
 	return prunedPaths
